@@ -9,6 +9,7 @@ Generators, runners, oracles: layoutwork.py.  Three ties, all against the workin
         scheduler with a mock camera/storage and a monitor client   vs  extracted frame_size (sizes), oracle (layout)
 """
 import filecmp
+import json
 import os
 import re
 import shutil
@@ -72,31 +73,67 @@ def crash_key(err):
     return m.group(1) if m else (err or "")[-200:]
 
 
-def report(ctx, impl, c, vs, kind, oracle_fn, how):
-    for (key, msg, k) in vs[:3]:
-        if ctx.has_violation(key):
-            ctx.violation(msg, None, key=key)
-            continue
-        small = minimise(impl, c, key, oracle_fn, kind)
-        out = run_lines(impl, small, timeout=60)[1]
-        vv = [x for x in oracle_fn(small, out) if x[0] == key]
-        ctx.violation(vv[0][1] if vv else msg, {"kind": kind, "ops": small, "impl_output": out, "original_length": len(c), "how": how}, key=key)
+def run_one(exe, case, timeout=30):
+    """-> (complete output lines, status, stderr); status ok | hang | crash"""
+    rc, out, err = run_lines(exe, case, timeout=timeout)
+    if "HANG" in out or rc == 124:
+        k = out.index("HANG") if "HANG" in out else len(out)
+        return out[:max(0, k - 1)], "hang", err
+    if len(out) < len(case):
+        return out, "crash", err
+    return out, "ok", err
 
 
-def minimise(impl, c, key, oracle_fn, kind):
+def run_batch(exe, cases, timeout=400, max_failures=3):
+    """Run many self-contained cases in one process; when the process dies or hangs inside a case, attribute it to that
+    case (re-run alone) and go on with the rest (after max_failures failures the rest of the batch is skipped: every
+    hang costs the 5 s watchdog).  -> list of (lines, status, stderr) per case."""
+    res = [([], "skipped", "")] * len(cases)
+    start = 0
+    failures = 0
+    while start < len(cases) and failures < max_failures:
+        flat = [o for c in cases[start:] for o in c]
+        rc, out, err = run_lines(exe, flat, timeout=timeout)
+        pos, k = 0, start
+        while k < len(cases) and pos + len(cases[k]) <= len(out) and "HANG" not in out[pos:pos + len(cases[k])]:
+            res[k] = (out[pos:pos + len(cases[k])], "ok", "")
+            pos += len(cases[k])
+            k += 1
+        if k >= len(cases):
+            break
+        res[k] = run_one(exe, cases[k])
+        if res[k][1] != "ok":
+            failures += 1
+        start = k + 1
+    return res
+
+
+def minimise(impl, c, key, oracle_fn):
     # the first line of a ring history (new <cap>) / of a packet case (pkt ...) is its setting: keep it
     head, body = (c[:1], c[1:]) if c and c[0].split()[0] in ("new", "pkt") else ([], c)
 
     def fails(cand):
         ops = head + cand
-        rc, out, _ = run_lines(impl, ops, timeout=30)
-        if len(out) != len(ops):
-            return False
-        return any(k == key for (k, _, _) in oracle_fn(ops, out))
+        out, st, _ = run_one(impl, ops, timeout=20)
+        if key in ("crash", "hang"):
+            return st == key
+        return st == "ok" and any(k == key for (k, _, _) in oracle_fn(ops, out))
     try:
-        return head + vlib.ddmin(body, fails, max_tests=150)
+        return head + vlib.ddmin(body, fails, max_tests=120 if key not in ("crash", "hang") else 40)
     except Exception:
         return c
+
+
+def report(ctx, impl, c, vs, kind, oracle_fn, how):
+    for (key, msg, k) in vs[:3]:
+        if ctx.has_violation(key):
+            ctx.violation(msg, None, key=key)
+            continue
+        small = minimise(impl, c, key, oracle_fn)
+        out, st, err = run_one(impl, small, timeout=20)
+        vv = [x for x in oracle_fn(small, out) if x[0] == key] if st == "ok" else []
+        ctx.violation(vv[0][1] if vv else msg, {"kind": kind, "ops": small, "impl_output": out[-40:], "original_length": len(c),
+                                                "stderr": (err or "")[-1500:] if st != "ok" else "", "how": how}, key=key)
 
 
 def fix_wellformed(orac, histories):
@@ -111,48 +148,129 @@ def fix_wellformed(orac, histories):
     return split_cases(flat, ("new",))
 
 
+def fold_lines(ctx, impl, cases, rcm, mo, em, ires, kind, oracle_fn, how):
+    flat_n = sum(len(c) for c in cases)
+    if rcm != 0 or len(mo) != flat_n:
+        ctx.broken_tie("model oracle failed on %s cases" % kind, (em or "")[-500:])
+        return
+    pos = 0
+    for c, (i, st, err) in zip(cases, ires):
+        m = mo[pos:pos + len(c)]
+        pos += len(c)
+        if st == "skipped":
+            ctx.count(kind + ":skipped-after-failures-in-its-batch")
+            continue
+        if st != "ok":
+            vs = oracle_fn(c[:len(i)], i)
+            what = ("did not return within 5 s (a walk that never advances)" if st == "hang"
+                    else "aborted (sanitizer report or crash): " + crash_key(err))
+            vs.append((st, "the implementation %s at op '%s' of a %s case" % (what, c[min(len(i), len(c) - 1)], kind), len(i)))
+            report(ctx, impl, c[:len(i) + 1], vs, kind, oracle_fn, how)
+            ctx.broken_tie("model/implementation disagreement (%s): the implementation %s" % (kind, "hung" if st == "hang" else "died"),
+                           {"ops": c[:len(i) + 1][-6:]})
+            ctx.case("\n".join(c), nontrivial=False)
+            continue
+        if kind == "fn":
+            nontriv = any(o.startswith("pkt") and int(o.split()[2]) >= 2 for o in c) or c[0].startswith(("bot", "img"))
+            for o in c:
+                ctx.count("fn:" + o.split()[0])
+        else:
+            wrapped = any(" region 0 n=" in l and not l.split(" | S ")[1].startswith("0 0 0 ") for l in m)
+            multi = any(l.startswith("R ") and "," in l.split(" | ")[0] for l in m)
+            partial = False
+            lastlen = {}
+            for o, l in zip(c, m):
+                w = o.split()
+                if w[0] == "r" and not l.startswith("R -"):
+                    lastlen[w[1]] = int(l.split()[2])
+                elif w[0] in ("us", "uj"):
+                    cons = int(re.search(r"consumed=(\d+)", l).group(1))
+                    if 0 < cons < lastlen.get(w[1], 0):
+                        partial = True
+                    lastlen[w[1]] = 0
+            nontriv = wrapped and multi and partial
+            for o in c:
+                ctx.count("ring:" + o.split()[0])
+            if wrapped:
+                ctx.count("ring:history-wrapped")
+            if partial:
+                ctx.count("ring:history-with-partial-consumption")
+            if any(l.startswith("W blocked") for l in m):
+                ctx.count("ring:history-with-full-ring")
+        ctx.case("\n".join(c), nontrivial=nontriv)
+        vs = oracle_fn(c, i)
+        if vs:
+            report(ctx, impl, c, vs, kind, oracle_fn, how)
+        if m != i:
+            d = next(k for k in range(len(c)) if m[k] != i[k])
+            ctx.broken_tie("model/implementation disagreement (%s)" % kind,
+                           {"ops": c[max(0, d - 12):d + 1], "op": c[d], "model": m[d], "impl": i[d]})
+        else:
+            ctx.traces_validated += 1
+
+
+def eval_lines(ctx, orac, impl, shards, kind, oracle_fn, how):
+    def one(sh):
+        return sh, run_lines(orac, [o for c in sh for o in c], timeout=600), run_batch(impl, sh)
+    for sh, (rcm, mo, em), ires in vlib.parallel(one, shards):
+        fold_lines(ctx, impl, sh, rcm, mo, em, ires, kind, oracle_fn, how)
+
+
 # ----------------------------------------------------------------------------------------------- pipe
-def run_pipe_case(orac, pipe, case):
-    rc, lines, err = run_lines(pipe, case, timeout=120)
-    return rc, lines, err
-
-
 def eval_pipe(ctx, orac, pipe, cases, how):
-    results = vlib.parallel(lambda c: run_pipe_case(orac, pipe, c), cases)
+    # in chunks: when the implementation hangs or dies in many runs (every hang costs the 20 s watchdog) the rest is skipped
+    results = []
+    for k in range(0, len(cases), 320):
+        part = vlib.parallel(lambda c: run_lines(pipe, c, timeout=60), cases[k:k + 320])
+        results += part
+        bad = sum(1 for (rc, lines, err) in part if "HANG" in lines or rc == 124 or rc not in (0, 42, 43))
+        if bad >= 8 and k + 320 < len(cases):
+            ctx.count("pipe:skipped-after-failures", len(cases) - len(results))
+            cases = cases[:len(results)]
+            break
     shapes = {}
+    dnf = 0
     for case, (rc, lines, err) in zip(cases, results):
         ended = any(l.startswith("END") for l in lines)
+        hang = "HANG" in lines or rc == 124
         vs = pipe_oracle(case, lines)
         stuck = [x for x in vs if x[0] == "stuck"]
         vs = [x for x in vs if x[0] != "stuck"]
         packets = [parse_packet(l) for l in lines if l.startswith(("A ", "M "))]
-        nfr = sum(len(p[2]) for p in packets)
         wrapped = any(b[0] < a[0] for a, b in zip(packets, packets[1:]))
         multi = any(len(p[2]) > 1 for p in packets)
         ctx.case("\n".join(case), nontrivial=ended and wrapped and multi)
         ctx.count("pipe:packets", len(packets))
-        ctx.count("pipe:frames-in-packets", nfr)
+        ctx.count("pipe:frames-in-packets", sum(len(p[2]) for p in packets))
         if wrapped:
             ctx.count("pipe:wrapped")
         if any(l.startswith("FILTER ") and l.split()[1] != "0" for l in case):
             ctx.count("pipe:with-filter")
+        sched = next((l for l in lines if l.startswith("SCHEDULE")), None)
+        rep = [l for l in case if not l.startswith("SEED")] + (["SCHED " + sched.split(" ", 1)[1]] if sched and " " in sched else
+                                                                 [l for l in case if l.startswith("SEED")])
         if stuck or not ended:
-            if rc not in (0, 42, 43) or "AddressSanitizer" in (err or "") or "runtime error" in (err or ""):
-                if not ctx.has_violation("crash"):
-                    ctx.violation("implementation aborted (sanitizer report or crash) in a pipeline run: " + crash_key(err),
-                                  {"kind": "pipe", "case": case, "tail": lines[-8:], "stderr": (err or "")[-2500:], "how": how}, key="crash")
+            dnf += 1
             ctx.count("pipe:did-not-finish")
+            san = "AddressSanitizer" in (err or "") or "runtime error" in (err or "")
+            if hang or san or rc not in (0, 42, 43):
+                key = "hang" if hang else "crash"
+                if not ctx.has_violation(key):
+                    what = ("did not return within 20 s in a loop without scheduling points (a walk that never advances)" if hang
+                            else "aborted (sanitizer report or crash): " + crash_key(err))
+                    ctx.violation("the implementation %s in a pipeline run" % what,
+                                  {"kind": "pipe", "case": case, "tail": [x[:300] for x in lines[-8:]], "stderr": (err or "")[-2500:], "how": how}, key=key)
+                else:
+                    ctx.violation("", None, key=key)
         for (key, msg, k) in vs[:3]:
             if ctx.has_violation(key):
                 ctx.violation(msg, None, key=key)
                 continue
-            sched = next((l for l in lines if l.startswith("SCHEDULE")), None)
-            rep = [l for l in case if not l.startswith("SEED")] + (["SCHED " + sched.split(" ", 1)[1]] if sched and " " in sched else
-                                                                     [l for l in case if l.startswith("SEED")])
             ctx.violation(msg, {"kind": "pipe", "case": rep, "line": lines[k][:400], "context": [x[:200] for x in lines[max(0, k - 6):k + 1]], "how": how}, key=key)
-        for p in packets:
-            for (o, size, fid, c, w, h, pl, t, sp) in p[2]:
-                shapes.setdefault((c, w, h, pl, t, sp), set()).add(size)
+        if not vs:
+            for p in packets:
+                for (o, size, fid, c, w, h, pl, t, sp) in p[2]:
+                    shapes.setdefault((c, w, h, pl, t, sp), set()).add(size)
         if ended and not vs:
             ctx.traces_validated += 1
     # sizes seen in packets vs the extracted model's frame_size of the header's own shape
@@ -168,11 +286,9 @@ def eval_pipe(ctx, orac, pipe, cases, how):
                 if shapes[kx] != {fs}:
                     ctx.broken_tie("model/implementation disagreement (pipe): size field of frames with shape (c,w,h,p,type,planes stride)",
                                    {"shape": kx, "model_frame_size": fs, "impl_size_fields": sorted(shapes[kx])})
-    n = len(cases)
-    dnf = ctx.dist.get("pipe:did-not-finish", 0)
-    if n and dnf > 0.2 * n:
-        ctx.broken_tie("more than 20% of the pipeline runs did not finish (deadlock / step limit): the pipe tie is not exercised",
-                       {"did_not_finish": dnf, "cases": n})
+    if cases and dnf > 0.2 * len(cases):
+        ctx.broken_tie("more than 20% of the pipeline runs did not finish (deadlock / step limit / hang): the pipe tie is not exercised",
+                       {"did_not_finish": dnf, "cases": len(cases)})
 
 
 # ----------------------------------------------------------------------------------------------- the check
@@ -231,11 +347,10 @@ def run(ctx):
     ctx.notes.append("coq/Chan*.v are bit-identical copies of fam/ring/coq (logical name Ring); check.py keeps them identical")
     ctx.notes.append("theorems are unbounded (all shapes, capacities, histories, clock predicates); the correspondence samples them")
 
+    corpus = load_corpus()
     # ---- replay of a recorded violation:  tools/check.py --property C05 --replay replays/C05-n.json
     rf = getattr(ctx, "replay_file", None)
-    corpus = load_corpus()
     if rf:
-        import json
         obj = (json.load(open(rf)).get("replay") or {})
         corpus = {"fn": [], "ring": [], "pipe": []}
         if obj.get("kind") == "pipe" and obj.get("case"):
@@ -247,38 +362,30 @@ def run(ctx):
             return
         for kind, ofn in (("fn", fn_oracle), ("ring", ring_oracle)):
             if corpus[kind]:
-                flat = [o for c in corpus[kind] for o in c]
-                rcm, mo, em = run_lines(orac, flat)
-                fold_lines(ctx, impl, corpus[kind], rcm, mo, em, run_lines(impl, flat)[1], kind, ofn, how_l)
+                eval_lines(ctx, orac, impl, [corpus[kind]], kind, ofn, how_l)
         eval_pipe(ctx, orac, pipe, corpus["pipe"], how_p)
         return
 
+    nsh = vlib.NPROC * (3 if thorough else 1)
     # ---- fn
     nfn = 30000 if thorough else 1500
     fn_cases = list(corpus["fn"])
     tables = gen_fn_tables(ctx.rng, thorough)
     for k in range(0, len(tables), 400):
         fn_cases.append(tables[k:k + 400])
-    ntab = len(fn_cases)
+    ctx.count("fn:table-batches", len(fn_cases) - len(corpus["fn"]))
     for k in range(nfn):
         fn_cases.append(gen_fn_case(ctx.rng, k))
-    shards = [s for s in vlib.shard(fn_cases, vlib.NPROC * (2 if thorough else 1)) if s]
-    results = vlib.parallel(lambda sh: (sh, run_lines(orac, [o for c in sh for o in c]), run_lines(impl, [o for c in sh for o in c])), shards)
-    for sh, (rcm, mo, em), (rci, io, ei) in results:
-        fold_lines(ctx, impl, sh, rcm, mo, em, io, "fn", fn_oracle, how_l)
-    ctx.count("fn:table-batches", ntab)
     ctx.count("fn:packets", nfn)
+    eval_lines(ctx, orac, impl, [s for s in vlib.shard(fn_cases, nsh) if s], "fn", fn_oracle, how_l)
 
     # ---- ring
     nring = 60000 if thorough else 3600
     hist = [gen_ring_history(ctx.rng, thorough) for _ in range(nring)]
-    rshards = [s for s in vlib.shard(hist, vlib.NPROC * (2 if thorough else 1)) if s]
-    fixed = vlib.parallel(lambda sh: fix_wellformed(orac, sh), rshards)
+    fixed = vlib.parallel(lambda sh: fix_wellformed(orac, sh), [s for s in vlib.shard(hist, nsh) if s])
     if corpus["ring"]:
         fixed = [corpus["ring"]] + fixed
-    results = vlib.parallel(lambda sh: (sh, run_lines(orac, [o for c in sh for o in c]), run_lines(impl, [o for c in sh for o in c])), fixed)
-    for sh, (rcm, mo, em), (rci, io, ei) in results:
-        fold_lines(ctx, impl, sh, rcm, mo, em, io, "ring", ring_oracle, how_l)
+    eval_lines(ctx, orac, impl, fixed, "ring", ring_oracle, how_l)
     for sh in fixed[1:3]:
         for h in sh[:1]:
             ctx.sample({"kind": "ring", "ops": h[:30]})
@@ -289,66 +396,3 @@ def run(ctx):
     eval_pipe(ctx, orac, pipe, pcases, how_p)
     if len(pcases) > len(corpus["pipe"]):
         ctx.sample({"kind": "pipe", "case": pcases[len(corpus["pipe"])]})
-
-
-def fold_lines(ctx, impl, cases, rcm, mo, em, io, kind, oracle_fn, how):
-    flat_n = sum(len(c) for c in cases)
-    if rcm != 0 or len(mo) != flat_n:
-        ctx.broken_tie("model oracle failed on %s cases" % kind, (em or "")[-500:])
-        return
-    pos = 0
-    for c in cases:
-        m = mo[pos:pos + len(c)]
-        i = io[pos:pos + len(c)]
-        pos += len(c)
-        if len(i) < len(c):
-            # the implementation process died in this batch: re-run this case alone to attribute the crash
-            rc1, i1, e1 = run_lines(impl, c, timeout=120)
-            if len(i1) == len(c):
-                i = i1
-            else:
-                vs = oracle_fn(c[:len(i1)], i1)
-                if vs:
-                    report(ctx, impl, c[:len(i1)], vs, kind, oracle_fn, how)
-                elif not ctx.has_violation("crash"):
-                    ctx.violation("implementation aborted (sanitizer report or crash) in a %s case: %s" % (kind, crash_key(e1)),
-                                  {"kind": kind, "ops": c[:len(i1) + 1], "impl_output": i1[-5:], "stderr": (e1 or "")[-2500:], "how": how}, key="crash")
-                ctx.broken_tie("model/implementation disagreement (%s): the implementation died" % kind, {"ops": c[:len(i1) + 1][-6:]})
-                continue
-        if kind == "fn":
-            nontriv = any(o.startswith("pkt") and int(o.split()[2]) >= 2 for o in c) or c[0].startswith(("bot", "img"))
-            for o in c:
-                ctx.count("fn:" + o.split()[0])
-        else:
-            wrapped = any(" region 0 n=" in l and k > 1 and not l.split(" | S ")[1].startswith("0 0 0 ") for k, l in enumerate(m))
-            multi = any(l.startswith("R ") and "," in l.split(" | ")[0] for l in m)
-            partial = False
-            lastlen = {}
-            for o, l in zip(c, m):
-                w = o.split()
-                if w[0] == "r" and not l.startswith("R -"):
-                    lastlen[w[1]] = int(l.split()[2])
-                elif w[0] in ("us", "uj"):
-                    cons = int(re.search(r"consumed=(\d+)", l).group(1))
-                    if 0 < cons < lastlen.get(w[1], 0):
-                        partial = True
-                    lastlen[w[1]] = 0
-            nontriv = wrapped and multi and partial
-            for o in c:
-                ctx.count("ring:" + o.split()[0])
-            if wrapped:
-                ctx.count("ring:history-wrapped")
-            if partial:
-                ctx.count("ring:history-with-partial-consumption")
-            if any(l.startswith("W blocked") for l in m):
-                ctx.count("ring:history-with-full-ring")
-        ctx.case("\n".join(c), nontrivial=nontriv)
-        vs = oracle_fn(c, i)
-        if vs:
-            report(ctx, impl, c, vs, kind, oracle_fn, how)
-        if m != i:
-            d = next(k for k in range(len(c)) if m[k] != i[k])
-            ctx.broken_tie("model/implementation disagreement (%s)" % kind,
-                           {"ops": c[max(0, d - 12):d + 1], "op": c[d], "model": m[d], "impl": i[d]})
-        else:
-            ctx.traces_validated += 1
